@@ -11,7 +11,8 @@ NOOPS = [["status", "--porcelain"], ["log", "--oneline", "-3"], ["diff", "--stat
 
 class C14(C02):
     id = "C14"
-    families = ["commits", "commits", "partial", "amend", "stats_mix", "human_overwrites_ai", "human_overwrites_ai"]
+    families = ["commits", "commits", "partial", "amend", "stats_mix", "human_overwrites_ai", "human_overwrites_ai",
+                "two_file_report", "two_file_report"]
     quick_runs, thorough_runs = 400, 6000
     quick_budget_s, thorough_budget_s = 170, 1800
     rule = ("one run = one commit-oriented history (plain commits, partial commits, amend) executed twice from identical "
@@ -32,6 +33,12 @@ class C14(C02):
         h = super().header(rng, tier, index)
         h["variant"] = {}
         h["cfg"]["perturb_p"] = rng.choice([0.3, 0.5, 0.8])
+        if h["cfg"]["families"][0] in ("commits", "stats_mix", "human_overwrites_ai", "two_file_report") and rng.random() < 0.6:
+            # people do not fire checkpoints: in the baseline world a human edit is only seen by the next AI report or
+            # by the pre-commit checkpoint (safe here: these families leave nothing pending in INITIAL, so the
+            # initial_positional finding cannot be met and its gate is lifted for the run)
+            h["cfg"]["human_pre_ckpt"] = False
+            h["cfg"]["gates"] = [x for x in h["cfg"]["gates"] if x != "initial_positional"]
         return h
 
     def draw_hazards(self, rng, tier):
